@@ -52,6 +52,7 @@ func main() {
 	detN := fs.Int("det", 0, "internal: determinism re-run of the first N runs of worker 0")
 	verbose := fs.Bool("v", false, "verbose")
 	one := fs.Int("one", -1, "run a single run index in-process and print its trace tail")
+	regress := fs.String("regress", "", "replay a frozen regression tape the way every check run does (kind-aware, lenient): exit 1 if it violates")
 	fs.Parse(os.Args[2:])
 	log.Root().SetHandler(log.DiscardHandler())
 
@@ -84,6 +85,27 @@ func main() {
 	switch {
 	case *replay != "":
 		os.Exit(doReplay(c, *replay, scratch))
+	case *regress != "":
+		rf, err := vfw.ReadReplay(*regress)
+		if err != nil {
+			fatal2("cannot read tape: %v", err)
+		}
+		rt := *tier
+		if rf.Tier != "" {
+			rt = rf.Tier
+		}
+		r := vfw.Execute(c, rt, seed, -1000, seamrt.ReplayTapeKinds(rf.Tape), true, scratch)
+		os.RemoveAll(scratch)
+		if r.Err != "" {
+			fmt.Fprintf(os.Stderr, "HARNESS-TROUBLE: regress: %s\n", r.Err)
+			os.Exit(2)
+		}
+		if r.Viol != nil {
+			fmt.Printf("VIOLATION property=%s replay=%s\n  predicate: %s\n  detail: %s\n", c.ID, *regress, r.Viol.Pred, r.Viol.Detail)
+			os.Exit(1)
+		}
+		fmt.Printf("regression tape %s: no violation\n", *regress)
+		os.Exit(0)
 	case *one >= 0:
 		r := vfw.Execute(c, *tier, seed, *one, seamrt.NewTape(mix(seed, uint64(*one))), true, scratch)
 		for _, l := range r.W.Trace {
@@ -152,9 +174,10 @@ func doWorker(c *vfw.Check, tier string, seed uint64, k, n, secs, maxRuns int, o
 	if n <= 0 {
 		n = 1
 	}
+	runTier := tier // frozen regression tapes are replayed under the tier they were recorded in
 	process := func(tape *seamrt.Tape, idx int, j int) bool {
 		traceDir := os.Getenv("VERIF_TRACEDIR") // debugging aid: dump every run's history
-		r := vfw.Execute(c, tier, seed, idx, tape, traceDir != "", scratch)
+		r := vfw.Execute(c, runTier, seed, idx, tape, traceDir != "", scratch)
 		if traceDir != "" && r.W != nil {
 			os.WriteFile(filepath.Join(traceDir, fmt.Sprintf("trace-%d.txt", idx)), []byte(strings.Join(r.W.Trace, "\n")+"\n"), 0644)
 		}
@@ -266,7 +289,12 @@ func doWorker(c *vfw.Check, tier string, seed uint64, k, n, secs, maxRuns int, o
 				continue
 			}
 			res.Probes["regression_tapes_replayed"]++
-			if !process(seamrt.ReplayTapeKinds(rf.Tape), -1000-fi, 1000) {
+			if rf.Tier != "" {
+				runTier = rf.Tier
+			}
+			ok := process(seamrt.ReplayTapeKinds(rf.Tape), -1000-fi, 1000)
+			runTier = tier
+			if !ok {
 				break
 			}
 		}
